@@ -158,5 +158,6 @@ func goArrayDelete(obj *object, name string, throw bool) bool {
 		return obj.runtime.typeErrorResult(throw)
 	}
 
-	return obj.delete(name, throw)
+	// an ordinary named property (obj.delete would dispatch to this function again)
+	return objectDelete(obj, name, throw)
 }
